@@ -851,6 +851,213 @@ func argvar(file *ast.File, info *types.Info) int {
 	return n
 }
 
+
+// pure: an expression without calls, receives or function literals.
+func pure(e ast.Expr) bool {
+	ok := true
+	ast.Inspect(e, func(x ast.Node) bool {
+		switch v := x.(type) {
+		case *ast.CallExpr, *ast.FuncLit:
+			ok = false
+		case *ast.UnaryExpr:
+			if v.Op == token.ARROW {
+				ok = false
+			}
+		}
+		return ok
+	})
+	return ok
+}
+
+// emptystr rewrites s == "" into len(s) == 0 and s != "" into len(s) != 0
+// for string-typed s, and len(s) == 0 / len(s) != 0 / len(s) > 0 back into
+// the comparison with "" (both spellings of the emptiness test are common).
+func emptystr(file *ast.File, info *types.Info) int {
+	n := 0
+	isStr := func(e ast.Expr) bool {
+		t := info.TypeOf(e)
+		if t == nil {
+			return false
+		}
+		b, ok := t.Underlying().(*types.Basic)
+		return ok && b.Info()&types.IsString != 0
+	}
+	isEmptyLit := func(e ast.Expr) bool {
+		bl, ok := ast.Unparen(e).(*ast.BasicLit)
+		return ok && bl.Kind == token.STRING && (bl.Value == `""` || bl.Value == "``")
+	}
+	done := map[*ast.BinaryExpr]bool{}
+	ast.Inspect(file, func(x ast.Node) bool {
+		be, ok := x.(*ast.BinaryExpr)
+		if !ok || done[be] {
+			return true
+		}
+		// a constant expression stays one
+		if tv, ok := info.Types[be]; ok && tv.Value != nil {
+			return true
+		}
+		if (be.Op == token.EQL || be.Op == token.NEQ) && pure(be) {
+			var s ast.Expr
+			switch {
+			case isEmptyLit(be.Y) && isStr(be.X):
+				s = be.X
+			case isEmptyLit(be.X) && isStr(be.Y):
+				s = be.Y
+			}
+			if s != nil {
+				if tv, ok := info.Types[s]; ok && tv.Value != nil {
+					return true
+				}
+				be.X = &ast.CallExpr{Fun: ast.NewIdent("len"), Args: []ast.Expr{s}}
+				be.Y = &ast.BasicLit{Kind: token.INT, Value: "0"}
+				done[be] = true
+				n++
+				return false
+			}
+		}
+		// len(s) == 0, len(s) != 0, len(s) > 0 with s a string
+		if cl, ok := ast.Unparen(be.X).(*ast.CallExpr); ok && len(cl.Args) == 1 && isStr(cl.Args[0]) && pure(cl.Args[0]) {
+			if id, ok := cl.Fun.(*ast.Ident); ok && id.Name == "len" && info.Uses[id] == types.Universe.Lookup("len") {
+				if bl, ok := ast.Unparen(be.Y).(*ast.BasicLit); ok && bl.Kind == token.INT && bl.Value == "0" {
+					op := token.ILLEGAL
+					switch be.Op {
+					case token.EQL:
+						op = token.EQL
+					case token.NEQ, token.GTR:
+						op = token.NEQ
+					}
+					if op != token.ILLEGAL {
+						be.X = cl.Args[0]
+						be.Y = &ast.BasicLit{Kind: token.STRING, Value: `""`}
+						be.Op = op
+						done[be] = true
+						n++
+						return false
+					}
+				}
+			}
+		}
+		return true
+	})
+	return n
+}
+
+// demorgan rewrites the condition of `if a || b` into `!(!a && !b)` and of
+// `if a && b` into `!(!a || !b)` (top-level operator of if conditions only).
+func demorgan(file *ast.File) int {
+	n := 0
+	not := func(e ast.Expr) ast.Expr {
+		if u, ok := ast.Unparen(e).(*ast.UnaryExpr); ok && u.Op == token.NOT {
+			return u.X
+		}
+		return &ast.UnaryExpr{Op: token.NOT, X: &ast.ParenExpr{X: e}}
+	}
+	ast.Inspect(file, func(x ast.Node) bool {
+		is, ok := x.(*ast.IfStmt)
+		if !ok {
+			return true
+		}
+		be, ok := ast.Unparen(is.Cond).(*ast.BinaryExpr)
+		if !ok || (be.Op != token.LOR && be.Op != token.LAND) {
+			return true
+		}
+		op := token.LAND
+		if be.Op == token.LAND {
+			op = token.LOR
+		}
+		is.Cond = &ast.UnaryExpr{Op: token.NOT, X: &ast.ParenExpr{X: &ast.BinaryExpr{X: not(be.X), Op: op, Y: not(be.Y)}}}
+		n++
+		return true
+	})
+	return n
+}
+
+// rangeidx rewrites `for _, v := range xs { body }` over a slice or array xs
+// (a pure variable or field path that the body does not assign to, with v
+// neither assigned nor address-taken in the body) into
+// `for i := range xs { v := xs[i]; body }`.
+func rangeidx(file *ast.File, info *types.Info) int {
+	n := 0
+	ast.Inspect(file, func(x ast.Node) bool {
+		rs, ok := x.(*ast.RangeStmt)
+		if !ok || rs.Tok != token.DEFINE || rs.Value == nil {
+			return true
+		}
+		if k, ok := rs.Key.(*ast.Ident); !ok || k.Name != "_" {
+			return true
+		}
+		v, ok := rs.Value.(*ast.Ident)
+		if !ok || v.Name == "_" {
+			return true
+		}
+		t := info.TypeOf(rs.X)
+		if t == nil {
+			return true
+		}
+		switch t.Underlying().(type) {
+		case *types.Slice:
+		default:
+			return true
+		}
+		if !pure(rs.X) {
+			return true
+		}
+		switch ast.Unparen(rs.X).(type) {
+		case *ast.Ident, *ast.SelectorExpr:
+		default:
+			return true
+		}
+		xs := types.ExprString(rs.X)
+		vo := info.Defs[v]
+		safe := true
+		ast.Inspect(rs.Body, func(y ast.Node) bool {
+			switch w := y.(type) {
+			case *ast.AssignStmt:
+				for _, l := range w.Lhs {
+					ls := types.ExprString(l)
+					if ls == xs || strings.HasPrefix(ls, xs+"[") || strings.HasPrefix(ls, xs+".") || strings.HasPrefix(xs, ls+".") {
+						safe = false
+					}
+					if id, ok := l.(*ast.Ident); ok && info.ObjectOf(id) == vo {
+						safe = false
+					}
+				}
+			case *ast.IncDecStmt:
+				if id, ok := w.X.(*ast.Ident); ok && info.ObjectOf(id) == vo {
+					safe = false
+				}
+			case *ast.UnaryExpr:
+				if w.Op == token.AND {
+					safe = false // &v or &xs[..]: aliasing differs
+				}
+			case *ast.FuncLit, *ast.GoStmt, *ast.DeferStmt:
+				safe = false
+			case *ast.CallExpr:
+				// a call might modify xs behind our back only through a pointer;
+				// appends to xs are caught by the assignment test above
+			}
+			return safe
+		})
+		if !safe {
+			return true
+		}
+		idx := &ast.Ident{Name: "idxZq", NamePos: v.Pos()}
+		rs.Key = idx
+		rs.Value = nil
+		at := rs.Body.Lbrace
+		// the operand is printed a second time: a copy without positions
+		xcopy, err := parser.ParseExpr(xs)
+		if err != nil {
+			return true
+		}
+		decl := &ast.AssignStmt{Lhs: []ast.Expr{&ast.Ident{Name: v.Name, NamePos: at}}, Tok: token.DEFINE, TokPos: at, Rhs: []ast.Expr{&ast.IndexExpr{X: xcopy, Index: ast.NewIdent("idxZq")}}}
+		rs.Body.List = append([]ast.Stmt{decl}, rs.Body.List...)
+		n++
+		return true
+	})
+	return n
+}
+
 func main() {
 	dir := os.Args[1]
 	mode := "rename"
@@ -869,7 +1076,7 @@ func main() {
 		for i, file := range pk.Syntax {
 			path := pk.CompiledGoFiles[i]
 			changed := false
-			if mode == "flip" || mode == "switch" || mode == "hoist" || mode == "fold" || mode == "incdec" || mode == "condvar" || mode == "unswitch" || mode == "elsestrip" || mode == "elseadd" || mode == "nop" || mode == "swap" || mode == "retvar" || mode == "argvar" {
+			if mode == "flip" || mode == "switch" || mode == "hoist" || mode == "fold" || mode == "incdec" || mode == "condvar" || mode == "unswitch" || mode == "elsestrip" || mode == "elseadd" || mode == "nop" || mode == "swap" || mode == "retvar" || mode == "argvar" || mode == "emptystr" || mode == "demorgan" || mode == "rangeidx" {
 				k := 0
 				switch mode {
 				case "flip":
@@ -896,6 +1103,12 @@ func main() {
 					k = retvar(file, pk.TypesInfo)
 				case "argvar":
 					k = argvar(file, pk.TypesInfo)
+				case "emptystr":
+					k = emptystr(file, pk.TypesInfo)
+				case "demorgan":
+					k = demorgan(file)
+				case "rangeidx":
+					k = rangeidx(file, pk.TypesInfo)
 				default:
 					k = hoist(file, pk.TypesInfo)
 				}
